@@ -332,7 +332,12 @@ class PropertyCheck:
             # baseline obligation now refuted, no failing input found
             path = self.write_replay(key, label, None, ob, note="no failing input found; solver refuted a baseline obligation")
             self.violations.append({"function": key, "obligation": label, "replay": path, "confirmed": False})
-            self.say(f"VIOLATION property={self.pid} replay={path} obligation={label} no-failing-input-found")
+            base = key.split("[")[0]
+            shown = sum(1 for v in self.violations if not v["confirmed"] and v["function"].split("[")[0] == base)
+            if shown <= 4:
+                self.say(f"VIOLATION property={self.pid} replay={path} obligation={label} no-failing-input-found")
+            elif shown == 5:
+                self.say(f"NOTE further refuted baseline obligations of {base} are listed in the evidence file only")
         else:
             self.undecided.append({"function": key, "obligation": label, "why": "refuted VC not reproduced and not in baseline"})
             self.say(f"UNDECIDED obligation={label} reason=refuted-not-reproduced")
